@@ -16,4 +16,88 @@ def generate() -> list[str]:
         f"def styleTextAttrs : List String := {lst(Style._text_attrs())}",
         f"def styleCellAttrs : List String := {lst(Style._cell_attrs())}",
         f"def styleFields : List String := {lst(fields)}",
+    ] + storage_tables()
+
+
+def lean_s(x: str) -> str:
+    assert all(32 <= ord(c) < 127 and c not in '"\\' for c in x), x
+    return '"' + x + '"'
+
+
+def rat(x) -> str:
+    n, d = float(x).as_integer_ratio()
+    return f"(({n} : Int) : Rat) / (({d} : Int) : Rat)"
+
+
+def storage_tables() -> list[str]:
+    """what the style storage path (model.py add_paragraph_style / add_cell_style / readers, cell.py Alignment) is driven by:
+    the font map, the alignment name maps and enum members, the underline / strikethru enum numbers, the defaults the
+    readers return for a cell without cell style, and the protobuf defaults `getattr(parent.<props>, field)` falls back to."""
+    from numbers_parser import constants as C
+    from numbers_parser.cell import HORIZONTAL_MAP, VERTICAL_MAP, HorizontalJustification, VerticalJustification
+    from numbers_parser.generated import TSPMessages_pb2 as P
+    from numbers_parser.generated import TSTArchives_pb2 as T
+    from numbers_parser.generated import TSWPArchives_pb2 as W
+    from numbers_parser.generated.fontmap import FONT_NAME_TO_FAMILY
+    from numbers_parser.generated.TSWPArchives_pb2 import CharacterStylePropertiesArchive as CharacterStyle
+
+    def pairs(d):
+        return "[" + ", ".join(f"({lean_s(k)}, {lean_s(v)})" for k, v in d.items()) + "]"
+
+    def codes(x):
+        return "[" + ", ".join(str(ord(c)) for c in x) + "]"
+
+    def cpairs(d):
+        return "[" + ", ".join(f"({codes(k)}, {codes(v)})" for k, v in d.items()) + "]"
+
+    def chunked(name, items, size=32):
+        # one literal of several hundred pairs exceeds the elaborator's recursion depth
+        parts = [items[i:i + size] for i in range(0, len(items), size)]
+        out = [f"def {name}_{i} : List (List Nat × List Nat) := {cpairs(dict(part))}" for i, part in enumerate(parts)]
+        out.append(f"def {name} : List (List Nat × List Nat) := " + " ++ ".join(f"{name}_{i}" for i in range(len(parts))))
+        return out
+
+    def npairs(d):
+        return "[" + ", ".join(f"({lean_s(k)}, {int(v)})" for k, v in d.items()) + "]"
+
+    def dflt(msg, field):
+        return msg.DESCRIPTOR.fields_by_name[field].default_value
+
+    cp, pp = W.CharacterStylePropertiesArchive, W.ParagraphStylePropertiesArchive
+    ce = T.CellStyleArchive.DESCRIPTOR.fields_by_name["cell_properties"].message_type._concrete_class
+    b = lambda x: "true" if x else "false"  # noqa: E731
+    return [
+        "/-- `numbers_parser.generated.fontmap.FONT_NAME_TO_FAMILY`, in dict order, as code points (string literals are slow in the kernel) -/",
+        *chunked("fontNameToFamily", list(FONT_NAME_TO_FAMILY.items())),
+        f"def horizontalMap : List (String × Nat) := {npairs(HORIZONTAL_MAP)}",
+        f"def verticalMap : List (String × Nat) := {npairs(VERTICAL_MAP)}",
+        f"def hjustValues : List Nat := [{', '.join(str(int(x)) for x in HorizontalJustification)}]",
+        f"def vjustValues : List Nat := [{', '.join(str(int(x)) for x in VerticalJustification)}]",
+        f"def vjustTop : Nat := {int(VerticalJustification.TOP)}",
+        f"def defaultAlignmentNames : String × String := ({lean_s(C.DEFAULT_ALIGNMENT[0])}, {lean_s(C.DEFAULT_ALIGNMENT[1])})",
+        f"def kNoUnderline : Nat := {int(CharacterStyle.UnderlineType.kNoUnderline)}",
+        f"def kSingleUnderline : Nat := {int(CharacterStyle.UnderlineType.kSingleUnderline)}",
+        f"def kNoStrikethru : Nat := {int(CharacterStyle.StrikethruType.kNoStrikethru)}",
+        f"def kSingleStrikethru : Nat := {int(CharacterStyle.StrikethruType.kSingleStrikethru)}",
+        f"def defaultTextInset : Rat := {rat(C.DEFAULT_TEXT_INSET)}",
+        f"def defaultTextWrap : Bool := {b(C.DEFAULT_TEXT_WRAP)}",
+        f"def defaultFontSize : Rat := {rat(C.DEFAULT_FONT_SIZE)}",
+        f"def defaultFont : List Nat := {codes(C.DEFAULT_FONT)}",
+        "/-- protobuf defaults of the fields the readers fetch from the parent style -/",
+        f"def pdBold : Bool := {b(dflt(cp, 'bold'))}",
+        f"def pdItalic : Bool := {b(dflt(cp, 'italic'))}",
+        f"def pdUnderline : Nat := {int(dflt(cp, 'underline'))}",
+        f"def pdStrikethru : Nat := {int(dflt(cp, 'strikethru'))}",
+        f"def pdFontSize : Rat := {rat(dflt(cp, 'font_size'))}",
+        f"def pdFontName : List Nat := {codes(dflt(cp, 'font_name'))}",
+        f"def pdColorR : Rat := {rat(dflt(P.Color, 'r'))}",
+        f"def pdColorG : Rat := {rat(dflt(P.Color, 'g'))}",
+        f"def pdColorB : Rat := {rat(dflt(P.Color, 'b'))}",
+        f"def pdAlignment : Nat := {int(dflt(pp, 'alignment'))}",
+        f"def pdFirstLineIndent : Rat := {rat(dflt(pp, 'first_line_indent'))}",
+        f"def pdLeftIndent : Rat := {rat(dflt(pp, 'left_indent'))}",
+        f"def pdRightIndent : Rat := {rat(dflt(pp, 'right_indent'))}",
+        f"def pdTextWrap : Bool := {b(dflt(ce, 'text_wrap'))}",
+        f"def pdVerticalAlignment : Nat := {int(dflt(ce, 'vertical_alignment'))}",
+        f"def pdPaddingLeft : Rat := {rat(dflt(W.PaddingArchive, 'left'))}",
     ]
